@@ -389,6 +389,20 @@ func (st *c01State) duplicate(a Action) {
 		fs(&cl2)
 		body = d.Frame(pk)
 		res.Probe("duplicated-requests-with-callbacks")
+	} else if a.D%5 == 2 {
+		// ... or a handful of callbacks of any kind (whatever per-agent state their handlers keep)
+		cr := simrt.NewRand(uint64(a.D) + 31)
+		var pk []world.Pkg
+		for k := 0; k < 2+cr.Intn(4); k++ {
+			cb := world.Callbacks[cr.Intn(len(world.Callbacks))]
+			if cb.Effect == "died" {
+				continue
+			}
+			var sent world.Sent
+			pk = append(pk, world.Pkg{Cmd: cb.Cmd, RID: st.outstanding(d), Body: cb.Build(cr, &sent)})
+		}
+		body = d.Frame(pk)
+		res.Probe("duplicated-requests-with-callbacks")
 	}
 	probs := len(w.Sim.Problems)
 	var calls []*simrt.HTTPCall
